@@ -14,6 +14,7 @@ import clingo
 from clingo.ast import ProgramBuilder, parse_string
 
 MAX_MODELS = 3000
+LAST = {"undefined": False}
 SOLVE_SECONDS = 8.0
 
 
@@ -43,7 +44,8 @@ class Logger:
         return res
 
 
-def solve_text(text: str, project: Optional[set] = None, with_cost: bool = True, consts: Iterable[str] = ()):
+def solve_text(text: str, project: Optional[set] = None, with_cost: bool = True, consts: Iterable[str] = (),
+               allow_undefined: bool = False):
     """returns frozenset of (frozenset(atom strings), cost tuple per priority as dict-tuple)"""
     lg = Logger()
     args = ["0", "--opt-mode=enum", "--warn=no-atom-undefined", "--warn=no-file-included"] + [f"-c{c}" for c in consts]
@@ -56,7 +58,8 @@ def solve_text(text: str, project: Optional[set] = None, with_cost: bool = True,
         if b == "undefined":
             raise Skip("undefined")
         raise Broken(f"{e}: {[m for _, m in lg.msgs][:3]}")
-    if lg.bad() == "undefined":
+    LAST["undefined"] = lg.bad() == "undefined"
+    if lg.bad() == "undefined" and not allow_undefined:
         raise Skip("undefined")
     return _enumerate(ctl, project, with_cost)
 
@@ -108,7 +111,7 @@ def _enumerate(ctl, project, with_cost):
     return frozenset(res)
 
 
-def shown(text: str):
+def shown(text: str, allow_undefined: bool = False):
     """answer sets as displayed by the program's own #show statements (with costs)"""
     lg = Logger()
     ctl = clingo.Control(["0", "--opt-mode=enum", "--warn=no-atom-undefined"], logger=lg, message_limit=1000)
@@ -119,7 +122,8 @@ def shown(text: str):
         if lg.bad() == "undefined":
             raise Skip("undefined")
         raise Broken(f"{e}: {[m for _, m in lg.msgs][:3]}")
-    if lg.bad() == "undefined":
+    LAST["undefined"] = lg.bad() == "undefined"
+    if lg.bad() == "undefined" and not allow_undefined:
         raise Skip("undefined")
     res = set()
     n = 0
